@@ -1092,7 +1092,8 @@ def argmax(matrix, axis=None, bits=None):
         raise PyrtlError('error: bits cannot be negative or zero, '
                          'got %s instead' % bits)
 
-    max_number = max(matrix, axis=axis, bits=bits)
+    # `bits` sizes the returned indices; the maximum itself is compared at full precision
+    max_number = max(matrix, axis=axis, bits=matrix.bits)
     if axis is None:
         index = Const(0)
         arg = matrix.rows * matrix.columns - 1
